@@ -214,8 +214,11 @@ fn sample_of(scen: &Scenario, ex: &Explored) -> Value {
 }
 
 pub fn run_plan(prop: &str, tier: Tier) -> RunReport {
+    run_given(prop, tier, plan(prop, tier), 0)
+}
+
+pub fn run_given(prop: &str, tier: Tier, pl: crate::catalogue::Plan, replay_offset: usize) -> RunReport {
     let t0 = Instant::now();
-    let pl = plan(prop, tier);
     let hooks_b = hooks_of(&pl.hooks);
     let hooks: Vec<&dyn StateHook> = hooks_b.iter().map(|b| b.as_ref()).collect();
     let mut rep = RunReport {
@@ -239,7 +242,7 @@ pub fn run_plan(prop: &str, tier: Tier) -> RunReport {
         }
     };
     let caps = Caps { wall_s: if tier == Tier::Quick { 120.0 } else { 1500.0 }, ..Caps::default() };
-    let mut nrep = 0usize;
+    let mut nrep = replay_offset;
     for scen in &pl.scenarios {
         let ex = match explore(scen, &hooks, &caps) {
             Ok(e) => e,
